@@ -27,7 +27,7 @@ def shapeTakeNone (nIdx : Nat) : Shape := [nIdx]
 /-- `indices[k]` (an `int`) converted to `size_t`: non-negative values unchanged, negative ones wrap -/
 def takeEntry (indices : List Int) (k : Nat) : Nat :=
   match indices[k]? with
-  | some v => if v < 0 then u64 v else v.toNat
+  | some v => i2u v
   | none => u64 (-1)
 
 def indexTake (d : Idx) (indices : List Int) (axis : Int) : Idx := mapAt (takeEntry indices) axis 0 d
